@@ -101,7 +101,11 @@ func init() {
 		"sort.Search": bSortSearch,
 		"maps.Clone":  bMapsClone,
 		"context.Context.Err": func(b *bctx) (Val, *State) {
-			return b.x.freshVal("ctxerr", b.resT.At(0).Type()), b.st
+			// nil, context.Canceled or context.DeadlineExceeded: never a klevdb sentinel
+			v := b.x.freshVal("ctxerr", b.resT.At(0).Type())
+			b.x.declIOErr()
+			b.x.sc.assert(or(eq(v.S, "nilErr"), app("ioErr", v.S)))
+			return v, b.st
 		},
 		"context.Context.Done": func(b *bctx) (Val, *State) {
 			return b.x.freshVal("ctxdone", b.resT.At(0).Type()), b.st
